@@ -9,12 +9,16 @@ from __future__ import annotations
 from . import C01
 
 PROPERTY = "C02"
-FUNCTIONS = list(C01.FUNCTIONS)
+FUNCTIONS = list(C01.FUNCTIONS) + [("krrood.entity_query_language.symbolic", "ResultQuantifier._evaluate__"), ("krrood.entity_query_language.symbolic", "The._evaluate__")]
 ASSUMPTIONS = list(C01.ASSUMPTIONS) + ["a true output in the fragment binds every variable of its node (Total+), so one output covers one assignment of the query variables"]
 TRUSTED = list(C01.TRUSTED)
 BOUNDED_ONLY_CLAUSES = ["predicates, quantified conditionals and whole-query multiplicity (incl. the()) are decided by the bounded multiset driver"]
 
 
 def harnesses():
-    keep = ("cover-AND", "cover-ElseIf", "cover-Not", "cover-Comparator", "value-Variable", "value-Attribute", "query-descriptor", "optimize_or", "canary")
-    return [h for h in C01.harnesses() if h.name.startswith(keep)]
+    keep = ("cover-AND", "cover-ElseIf", "cover-Not", "cover-Comparator", "value-Variable", "value-Attribute", "query-descriptor", "optimize_or", "invert", "canary")
+    from . import C09
+    # "one result per satisfying assignment" at the top of the query: the result quantifier reports EVERY result of its child
+    # exactly once (C09's counting-loop invariant: reported = pulled), so nothing is merged or repeated after the cover
+    counting = [h for h in C09.harnesses() if h.name in ("an-evaluate[none+var]", "an-evaluate[none]", "the-evaluate-stream[var]")]
+    return [h for h in C01.harnesses() if h.name.startswith(keep)] + counting
